@@ -551,7 +551,9 @@ def _quant(st, n, is_forall):
             vars_.append(x)
             st.locals[names[0]] = Val(T.TRef(dom.id), x)
         elif isinstance(dom, ast.Name) and dom.id in ('Int', 'Str', 'Real', 'Bytes') or \
-                (isinstance(dom, ast.Subscript) or (isinstance(dom, ast.Name) and dom.id in T._ALIASES)):
+                ((isinstance(dom, ast.Subscript) and isinstance(dom.value, ast.Name) and dom.value.id in
+                  ('List', 'Set', 'Dict', 'Tuple', 'Opt', 'Optional', 'Union', 'Seq', 'SetV', 'MapV', 'Ref'))
+                 or (isinstance(dom, ast.Name) and dom.id in T._ALIASES and dom.id not in st.locals)):
             ty = T._pt(dom)
             x = z3.Const('%s!q%d' % (names[0], tag), T.sort_of(ty))
             vars_.append(x)
@@ -1024,6 +1026,17 @@ def bi_pure_IO_encrypted_of(st, args, kw):
     return E.mk_bool(z3.ForAll([x], f(x, v.z), patterns=[f(x, v.z)]))
 
 
+def bi_py_lower(st, args, kw):
+    f = z3.Function('py_lower', z3.StringSort(), z3.StringSort())
+    return Val(args[0].t, f(args[0].z))
+
+
+def bi_substr_after_last(st, args, kw):
+    s, sep = args
+    idx = z3.LastIndexOf(s.z, sep.z)
+    return Val(s.t, z3.SubString(s.z, idx + z3.Length(sep.z), z3.Length(s.z) - idx - z3.Length(sep.z)))
+
+
 def bi_mkseq(st, args, kw):
     a, n = args
     return Val(T.TSeq(a.t.args[1]), SeqV(a.z, n.z))
@@ -1081,7 +1094,7 @@ def bi_dict(st, args, kw):
 
 
 _BUILTINS = {
-    'mkseq': bi_mkseq, 'pure_IO_encrypted_of': bi_pure_IO_encrypted_of, 'str_prefix': bi_str_prefix, 'nraised': bi_nraised, 'allocated': bi_allocated, 'ncalls': bi_ncalls, 'call_arg': bi_call_arg,
+    'mkseq': bi_mkseq, 'py_lower': bi_py_lower, 'substr_after_last': bi_substr_after_last, 'pure_IO_encrypted_of': bi_pure_IO_encrypted_of, 'str_prefix': bi_str_prefix, 'nraised': bi_nraised, 'allocated': bi_allocated, 'ncalls': bi_ncalls, 'call_arg': bi_call_arg,
     'call_result': bi_call_result, 'trig': bi_trig, 'same': bi_same, 'is_list': bi_is_list, 'store': bi_store, 'dict_has': bi_dict_has,
     'dict_get': bi_dict_get, 'dict_keys': bi_dict_keys, 'dict': bi_dict, 'dict_index': bi_dict_index,
     'len': bi_len, 'set': bi_set, 'list': bi_list, 'tuple': bi_tuple, 'min': bi_min, 'max': bi_max,
